@@ -73,7 +73,8 @@ Inductive expr :=
 | ERaise (k : ekind).             (* an expression that raises k *)
 Inductive stmt :=
 | SAssign (e : expr)              (* t_i = e                                   : 1 line  *)
-| STry (e h : expr).              (* try: t_i = e / except (V,K,Z): t_i = h    : 4 lines *)
+| STry (e h : expr)               (* try: t_i = e / except (V,K,Z): t_i = h    : 4 lines *)
+| SFin (e c : expr).              (* try: t_i = e / finally: c (value dropped) : 4 lines *)
 
 Record cell := mkCell {
   cl_body : list stmt;            (* the value of the last statement is returned *)
@@ -101,22 +102,24 @@ Record state := mkState {
   s_maxdepth : nat;
   s_recalc : bool;
   s_reent : bool;                               (* ghost: some formula was entered while already executing *)
-  s_taint : nat }.                              (* CallStack.taint: the first [s_taint] frames (from the bottom) run over a failure *)
+  s_taint : nat;                                (* CallStack.taint: the first [s_taint] frames (from the bottom) run over a failure *)
+  s_masks : nat }.                              (* ghost: how often the failure of a clean-up ([SFin]) replaced the depth-limit error *)
 
-Definition upd_data st d := mkState (s_cells st) (s_refs st) d (s_inputs st) (s_nodes st) (s_edges st) (s_rnodes st) (s_redges st) (s_stack st) (s_refstack st) (s_rolled st) (s_err st) (s_log st) (s_maxdepth st) (s_recalc st) (s_reent st) (s_taint st).
-Definition upd_inputs st i := mkState (s_cells st) (s_refs st) (s_data st) i (s_nodes st) (s_edges st) (s_rnodes st) (s_redges st) (s_stack st) (s_refstack st) (s_rolled st) (s_err st) (s_log st) (s_maxdepth st) (s_recalc st) (s_reent st) (s_taint st).
-Definition upd_graph st n e := mkState (s_cells st) (s_refs st) (s_data st) (s_inputs st) n e (s_rnodes st) (s_redges st) (s_stack st) (s_refstack st) (s_rolled st) (s_err st) (s_log st) (s_maxdepth st) (s_recalc st) (s_reent st) (s_taint st).
-Definition upd_rgraph st n e := mkState (s_cells st) (s_refs st) (s_data st) (s_inputs st) (s_nodes st) (s_edges st) n e (s_stack st) (s_refstack st) (s_rolled st) (s_err st) (s_log st) (s_maxdepth st) (s_recalc st) (s_reent st) (s_taint st).
-Definition upd_stack st s := mkState (s_cells st) (s_refs st) (s_data st) (s_inputs st) (s_nodes st) (s_edges st) (s_rnodes st) (s_redges st) s (s_refstack st) (s_rolled st) (s_err st) (s_log st) (s_maxdepth st) (s_recalc st) (s_reent st) (s_taint st).
-Definition upd_refstack st s := mkState (s_cells st) (s_refs st) (s_data st) (s_inputs st) (s_nodes st) (s_edges st) (s_rnodes st) (s_redges st) (s_stack st) s (s_rolled st) (s_err st) (s_log st) (s_maxdepth st) (s_recalc st) (s_reent st) (s_taint st).
-Definition upd_rolled st r := mkState (s_cells st) (s_refs st) (s_data st) (s_inputs st) (s_nodes st) (s_edges st) (s_rnodes st) (s_redges st) (s_stack st) (s_refstack st) r (s_err st) (s_log st) (s_maxdepth st) (s_recalc st) (s_reent st) (s_taint st).
-Definition upd_err st e := mkState (s_cells st) (s_refs st) (s_data st) (s_inputs st) (s_nodes st) (s_edges st) (s_rnodes st) (s_redges st) (s_stack st) (s_refstack st) (s_rolled st) e (s_log st) (s_maxdepth st) (s_recalc st) (s_reent st) (s_taint st).
-Definition upd_log st l := mkState (s_cells st) (s_refs st) (s_data st) (s_inputs st) (s_nodes st) (s_edges st) (s_rnodes st) (s_redges st) (s_stack st) (s_refstack st) (s_rolled st) (s_err st) l (s_maxdepth st) (s_recalc st) (s_reent st) (s_taint st).
-Definition upd_cells st c := mkState c (s_refs st) (s_data st) (s_inputs st) (s_nodes st) (s_edges st) (s_rnodes st) (s_redges st) (s_stack st) (s_refstack st) (s_rolled st) (s_err st) (s_log st) (s_maxdepth st) (s_recalc st) (s_reent st) (s_taint st).
-Definition upd_refs st r := mkState (s_cells st) r (s_data st) (s_inputs st) (s_nodes st) (s_edges st) (s_rnodes st) (s_redges st) (s_stack st) (s_refstack st) (s_rolled st) (s_err st) (s_log st) (s_maxdepth st) (s_recalc st) (s_reent st) (s_taint st).
-Definition upd_recalc st b := mkState (s_cells st) (s_refs st) (s_data st) (s_inputs st) (s_nodes st) (s_edges st) (s_rnodes st) (s_redges st) (s_stack st) (s_refstack st) (s_rolled st) (s_err st) (s_log st) (s_maxdepth st) b (s_reent st) (s_taint st).
-Definition upd_reent st b := mkState (s_cells st) (s_refs st) (s_data st) (s_inputs st) (s_nodes st) (s_edges st) (s_rnodes st) (s_redges st) (s_stack st) (s_refstack st) (s_rolled st) (s_err st) (s_log st) (s_maxdepth st) (s_recalc st) b (s_taint st).
-Definition upd_taint st n := mkState (s_cells st) (s_refs st) (s_data st) (s_inputs st) (s_nodes st) (s_edges st) (s_rnodes st) (s_redges st) (s_stack st) (s_refstack st) (s_rolled st) (s_err st) (s_log st) (s_maxdepth st) (s_recalc st) (s_reent st) n.
+Definition upd_data st d := mkState (s_cells st) (s_refs st) d (s_inputs st) (s_nodes st) (s_edges st) (s_rnodes st) (s_redges st) (s_stack st) (s_refstack st) (s_rolled st) (s_err st) (s_log st) (s_maxdepth st) (s_recalc st) (s_reent st) (s_taint st) (s_masks st).
+Definition upd_inputs st i := mkState (s_cells st) (s_refs st) (s_data st) i (s_nodes st) (s_edges st) (s_rnodes st) (s_redges st) (s_stack st) (s_refstack st) (s_rolled st) (s_err st) (s_log st) (s_maxdepth st) (s_recalc st) (s_reent st) (s_taint st) (s_masks st).
+Definition upd_graph st n e := mkState (s_cells st) (s_refs st) (s_data st) (s_inputs st) n e (s_rnodes st) (s_redges st) (s_stack st) (s_refstack st) (s_rolled st) (s_err st) (s_log st) (s_maxdepth st) (s_recalc st) (s_reent st) (s_taint st) (s_masks st).
+Definition upd_rgraph st n e := mkState (s_cells st) (s_refs st) (s_data st) (s_inputs st) (s_nodes st) (s_edges st) n e (s_stack st) (s_refstack st) (s_rolled st) (s_err st) (s_log st) (s_maxdepth st) (s_recalc st) (s_reent st) (s_taint st) (s_masks st).
+Definition upd_stack st s := mkState (s_cells st) (s_refs st) (s_data st) (s_inputs st) (s_nodes st) (s_edges st) (s_rnodes st) (s_redges st) s (s_refstack st) (s_rolled st) (s_err st) (s_log st) (s_maxdepth st) (s_recalc st) (s_reent st) (s_taint st) (s_masks st).
+Definition upd_refstack st s := mkState (s_cells st) (s_refs st) (s_data st) (s_inputs st) (s_nodes st) (s_edges st) (s_rnodes st) (s_redges st) (s_stack st) s (s_rolled st) (s_err st) (s_log st) (s_maxdepth st) (s_recalc st) (s_reent st) (s_taint st) (s_masks st).
+Definition upd_rolled st r := mkState (s_cells st) (s_refs st) (s_data st) (s_inputs st) (s_nodes st) (s_edges st) (s_rnodes st) (s_redges st) (s_stack st) (s_refstack st) r (s_err st) (s_log st) (s_maxdepth st) (s_recalc st) (s_reent st) (s_taint st) (s_masks st).
+Definition upd_err st e := mkState (s_cells st) (s_refs st) (s_data st) (s_inputs st) (s_nodes st) (s_edges st) (s_rnodes st) (s_redges st) (s_stack st) (s_refstack st) (s_rolled st) e (s_log st) (s_maxdepth st) (s_recalc st) (s_reent st) (s_taint st) (s_masks st).
+Definition upd_log st l := mkState (s_cells st) (s_refs st) (s_data st) (s_inputs st) (s_nodes st) (s_edges st) (s_rnodes st) (s_redges st) (s_stack st) (s_refstack st) (s_rolled st) (s_err st) l (s_maxdepth st) (s_recalc st) (s_reent st) (s_taint st) (s_masks st).
+Definition upd_cells st c := mkState c (s_refs st) (s_data st) (s_inputs st) (s_nodes st) (s_edges st) (s_rnodes st) (s_redges st) (s_stack st) (s_refstack st) (s_rolled st) (s_err st) (s_log st) (s_maxdepth st) (s_recalc st) (s_reent st) (s_taint st) (s_masks st).
+Definition upd_refs st r := mkState (s_cells st) r (s_data st) (s_inputs st) (s_nodes st) (s_edges st) (s_rnodes st) (s_redges st) (s_stack st) (s_refstack st) (s_rolled st) (s_err st) (s_log st) (s_maxdepth st) (s_recalc st) (s_reent st) (s_taint st) (s_masks st).
+Definition upd_recalc st b := mkState (s_cells st) (s_refs st) (s_data st) (s_inputs st) (s_nodes st) (s_edges st) (s_rnodes st) (s_redges st) (s_stack st) (s_refstack st) (s_rolled st) (s_err st) (s_log st) (s_maxdepth st) b (s_reent st) (s_taint st) (s_masks st).
+Definition upd_reent st b := mkState (s_cells st) (s_refs st) (s_data st) (s_inputs st) (s_nodes st) (s_edges st) (s_rnodes st) (s_redges st) (s_stack st) (s_refstack st) (s_rolled st) (s_err st) (s_log st) (s_maxdepth st) (s_recalc st) b (s_taint st) (s_masks st).
+Definition upd_masks st n := mkState (s_cells st) (s_refs st) (s_data st) (s_inputs st) (s_nodes st) (s_edges st) (s_rnodes st) (s_redges st) (s_stack st) (s_refstack st) (s_rolled st) (s_err st) (s_log st) (s_maxdepth st) (s_recalc st) (s_reent st) (s_taint st) n.
+Definition upd_taint st n := mkState (s_cells st) (s_refs st) (s_data st) (s_inputs st) (s_nodes st) (s_edges st) (s_rnodes st) (s_redges st) (s_stack st) (s_refstack st) (s_rolled st) (s_err st) (s_log st) (s_maxdepth st) (s_recalc st) (s_reent st) n (s_masks st).
 
 (** * Association lists and sets *)
 Fixpoint lookup_cell (l : list (cid * cell)) (c : cid) : option cell :=
@@ -361,6 +364,7 @@ Fixpoint stmt_line (body : list stmt) (i : nat) : nat :=
   | O, _ => 3
   | S j, SAssign _ :: t => 1 + stmt_line t j
   | S j, STry _ _ :: t => 4 + stmt_line t j
+  | S j, SFin _ _ :: t => 4 + stmt_line t j
   | S j, [] => 3
   end.
 
@@ -522,6 +526,32 @@ with exec_body (fuel : nat) (st : state) (args : key) (locs : list val) (whole r
               else (Err k, st1, ln + 1)
           | (OutOfFuel, st1) => (OutOfFuel, st1, 0)
           end
+      | SFin e c :: more =>
+          let ln := stmt_line whole idx in
+          match eval_expr f st args locs (ln + 1) e with
+          | (Val v, st1) =>
+              (* no failure is pending: the clean-up runs as a statement whose value is dropped *)
+              match eval_expr f st1 args locs (ln + 3) c with
+              | (Val _, st2) => exec_body f st2 args (locs ++ [v]) whole more (S idx)
+              | (Err k2, st2) => (Err k2, st2, ln + 3)
+              | (OutOfFuel, st2) => (OutOfFuel, st2, 0)
+              end
+          | (Err k, st1) =>
+              (* the failure stays pending while the clean-up runs ([executor.failures]
+                 keeps the rolled back nodes per exception): failures caught below the
+                 clean-up have lists of their own; when the clean-up completes, the pending
+                 failure goes on with its nodes; when it fails, its failure replaces the
+                 pending one, whose nodes are forgotten.  The frame is tainted exactly when
+                 the failure of [e] came up from a formula below (in the state) *)
+              match eval_expr f (upd_rolled st1 []) args locs (ln + 3) c with
+              | (Val _, st2) => (Err k, upd_rolled st2 (s_rolled st1), ln + 1)
+              | (Err k2, st2) =>
+                  (* ghost: the depth-limit error does not reach the request when it is replaced *)
+                  (Err k2, (if ekind_eqb k KDeep then upd_masks st2 (S (s_masks st2)) else st2), ln + 3)
+              | (OutOfFuel, st2) => (OutOfFuel, st2, 0)
+              end
+          | (OutOfFuel, st1) => (OutOfFuel, st1, 0)
+          end
       end
   end.
 
@@ -660,7 +690,7 @@ Definition step (fuel : nat) (st : state) (o : op) : out * state :=
   end.
 
 Definition init (cells : list (cid * cell)) (refs : list (rid * (option nat * val))) (maxdepth : nat) : state :=
-  mkState cells refs [] [] [] [] [] [] [] [] [] None [] maxdepth false false 0.
+  mkState cells refs [] [] [] [] [] [] [] [] [] None [] maxdepth false false 0 0.
 
 Fixpoint run (fuel : nat) (st : state) (ops : list op) : list out * state :=
   match ops with
